@@ -104,11 +104,81 @@ def make_treatment(t):
     raise ValueError(kind)
 
 
+def make_disease(d):
+    """ impl._disease, plus the module's OWN timestep (`dt` / `unit` given to the disease, not the sim): impl's builders for
+        sir / sis pass a fixed list of keywords, so the two timeline keywords are added here (impl.py is shared, not edited) """
+    import starsim as ss
+    d = dict(d)
+    own = {k: d.pop(k) for k in ('dt', 'unit') if k in d}
+    if not own:
+        return impl._disease(d)
+    if d['type'] in ('sir', 'sis'):
+        kw = {k: d[k] for k in ('beta', 'init_prev', 'dur_inf', 'p_death', 'waning', 'name') if k in d}
+        return dict(sir=ss.SIR, sis=ss.SIS)[d['type']](**kw, **own)
+    return impl._disease(dict(d, **own))
+
+
 def build(cfg, extra_interventions=None, **kw):
-    """ impl.build_sim plus the treatment interventions named in cfg['treatments'] """
+    """ impl.build_sim plus the treatment interventions named in cfg['treatments'] and diseases on their own timestep """
     intv = list(extra_interventions or []) + [make_treatment(t) for t in cfg.get('treatments', [])]
+    if any('dt' in d or 'unit' in d for d in cfg.get('diseases', [])):
+        kw = dict(kw, diseases=[make_disease(d) for d in cfg['diseases']])
     sim = impl.build_sim(cfg, extra_interventions=intv or None, **kw)
     return sim
+
+
+def own_timestep_cfgs(rng, reps=1):
+    """
+    Scenario family "the disease module runs on its own timestep" (round 3): `dt` (and `unit`) are given to the DISEASE, so
+    the module's step index `self.ti` and the simulation's `sim.ti` are different clocks.  Every built-in disease is run
+    with a FINER step than the simulation (the module index runs ahead of the sim's) and with a COARSER one (it lags), long
+    enough that the gap between the two indices exceeds the sampled durations; plus co-circulating diseases on different
+    clocks in one sim.  Both the correspondence and the oracle run all of them on every run.
+    """
+    out = []
+    for _ in range(reps):
+        for d in DISEASES:
+            for mode in ('finer', 'coarser'):
+                cfg = dict(n_agents=rng.choice([100, 140]), rand_seed=rng.randint(0, 10_000))
+                dc = disease_cfg(rng, d)
+                if d in DAY_DISEASES:
+                    if mode == 'finer':
+                        sdt = rng.choice([2, 4]); mdt = rng.choice([1, sdt // 2]); nstep = rng.randint(24, 32)
+                    else:
+                        sdt = 1; mdt = rng.choice([2, 3]); nstep = rng.randint(36, 48)
+                    cfg.update(unit='day', dt=sdt, start='2020-01-01', dur=sdt * nstep)
+                    dc.update(unit='day', dt=mdt)
+                else:
+                    if mode == 'finer':
+                        sdt = rng.choice([1.0, 0.5]); mdt = sdt * rng.choice([0.5, 0.25]); nstep = rng.randint(24, 32)
+                    else:
+                        sdt = rng.choice([0.5, 0.25]); mdt = sdt * rng.choice([2, 3]); nstep = rng.randint(36, 48)
+                    cfg.update(unit='year', dt=sdt, start=2000, dur=round(sdt * nstep, 6))
+                    dc.update(unit='year', dt=mdt)
+                if d == 'sir': dc['p_death'] = rng.choice([0.1, 0.3])
+                cfg['diseases'] = [dc]
+                cfg['networks'] = [dict(type='random', n_contacts=rng.choice([2, 4]), dur=0)]
+                dem = []
+                if rng.random() < 0.6 or d in ('hiv', 'syphilis'):
+                    dem.append(dict(type='deaths', death_rate=rng.choice([20, 60])))
+                    if d in ('hiv', 'syphilis'):
+                        dem.append(dict(type='pregnancy', fertility_rate=150, burnin=True))
+                        cfg['networks'].append(dict(type='maternal'))
+                cfg['demographics'] = dem
+                cfg['family'] = f'own-timestep/{mode}'
+                out.append(cfg)
+        # co-circulating diseases on different clocks in one sim (one inherits the sim's step, one is finer, one coarser)
+        out.append(dict(n_agents=150, rand_seed=rng.randint(0, 10_000), unit='year', dt=1.0, start=2000, dur=20, family='own-timestep/mixed',
+                        diseases=[dict(type='sir', beta=0.3, init_prev=0.2, dur_inf=4, p_death=0.2),
+                                  dict(type='sis', beta=0.3, init_prev=0.2, dur_inf=2, dt=0.5, unit='year'),
+                                  dict(type='hiv', beta=0.3, init_prev=0.1, dt=2.0, unit='year')],
+                        networks=[dict(type='random', n_contacts=4, dur=0)], demographics=[dict(type='deaths', death_rate=40)]))
+        out.append(dict(n_agents=150, rand_seed=rng.randint(0, 10_000), unit='day', dt=2, start='2020-01-01', dur=60, family='own-timestep/mixed',
+                        diseases=[dict(type='sis', beta=0.3, init_prev=0.2, dur_inf=6, dt=1, unit='day'),
+                                  dict(type='gonorrhea', beta=0.6, init_prev=0.3, p_clear=0.8),
+                                  dict(type='measles', beta=0.3, init_prev=0.2, p_death=0.1, dt=4, unit='day')],
+                        networks=[dict(type='random', n_contacts=4, dur=0)], demographics=[]))
+    return out
 
 
 def scenario_cfgs(rng):
@@ -155,7 +225,8 @@ def scenario_cfgs(rng):
 
 class Call:
     """ one recorded invocation of a disease method """
-    __slots__ = ('disease', 'name', 'method', 'ti', 'auids', 'before', 'after', 'args', 'dist_calls', 'entry', 'exit', 'seq', 'extra')
+    # `ti` = the step index of the MODULE (`disease.ti`; what the disease code calls `self.ti`), `sim_ti` = the simulation's
+    __slots__ = ('disease', 'name', 'method', 'ti', 'sim_ti', 'auids', 'before', 'after', 'args', 'dist_calls', 'entry', 'exit', 'seq', 'extra')
 
 
 class Recorder:
@@ -303,7 +374,7 @@ class Recorder:
             rec.depth[key] = 1
             call = Call()
             call.disease = self; call.name = dname; call.method = meth
-            call.ti = int(self.sim.ti); call.args = (a, kw); call.dist_calls = []
+            call.sim_ti = int(self.sim.ti); call.ti = int(self.ti) if self.ti is not None else call.sim_ti; call.args = (a, kw); call.dist_calls = []
             flags = rec.facts[dname]['flags']
             au = np.asarray(self.sim.people.auids).copy()
             call.auids = au
